@@ -67,6 +67,10 @@ def pool_specs(dt="f8"):
             {"k": "Kronecker", "via": "ctor", "args": [{"k": "Identity", "n": 2, "dt": dt}, {"k": "Identity", "n": 2, "dt": dt}]}, D(46)]},
         "BlockDiagIdentityFirst": {"k": "BlockDiag", "via": "ctor", "mult": [1, 1], "args": [{"k": "Identity", "n": 2, "dt": dt}, D(47, 2, 2)]},
         "GenericFlip": {"k": "Generic", "shape": [N, N], "dt": dt, "seed": 50, "gen": "flip"},  # product returns a view of the operand
+        # the same kinds built from other legal argument forms: a NumPy scalar / 0-d array instead of a Python float
+        "ScalarMulNpScalar": {"k": "ScalarMul", "n": N, "dt": dt, "c": 2.0, "cform": "npscalar"},
+        "ScalarMulArr0": {"k": "ScalarMul", "n": N, "dt": dt, "c": 2.0, "cform": "arr0"},
+        "ScaledNpScalar": {"k": "Scaled", "c": 3.0, "cform": "npscalar", "arg": D(51)},
         "SumFlipFirst": {"k": "Sum", "via": "ctor", "args": [{"k": "Generic", "shape": [N, N], "dt": dt, "seed": 51, "gen": "flip"}, D(52)]},
         "PSDKron": {"k": "Kronecker", "via": "ctor", "args": [
             {"k": "Annot", "name": "PSD", "arg": dict(D(38, 2, 2), gen="herm", eigs=[1.0, 2.0])},
@@ -75,6 +79,12 @@ def pool_specs(dt="f8"):
 
 
 def build_member(spec, owned):
+    if spec.get("cform"):
+        cdt = np.dtype(P.DT[spec.get("dt", "f8")] if spec["k"] == "ScalarMul" else P.DT[spec["arg"]["dt"]])
+        c = cdt.type(spec["c"]) if spec["cform"] == "npscalar" else np.array(spec["c"], dtype=cdt)
+        if spec["k"] == "ScalarMul":
+            return ops.ScalarMul(c, (spec["n"], spec["n"]), dtype=cdt)
+        return c * B.build(spec["arg"], owned)
     if spec["k"] == "Dense" and spec.get("layout"):
         A0 = P.arrays(spec)["A"]
         if spec["layout"] == "F":
@@ -406,7 +416,8 @@ def run_order(ctx, case):
     names = sorted(pool_specs().keys())
     ctx.begin_case(case, sig="order", nontrivial=True)
     orders = [[a, b] for a, b in itertools.permutations(["SlicedSlices", "SlicedArrays", "Product", "Sum", "Kronecker", "Dense", "ScalarMul", "Identity"], 2)]
-    orders = orders[:28] + [list(reversed(names)), names]
+    orders = orders[:28] + [list(reversed(names)), names] + [["ScalarMulNpScalar", "ScalarMul"], ["ScaledNpScalar", "Product"], ["ScalarMulArr0", "ScalarMul"],
+                            ["ScalarMul", "ScalarMulNpScalar"], ["ScaledNpScalar", "ScalarMulNpScalar"]]
     results = {}
     procs = []
     for od in orders:
